@@ -64,7 +64,7 @@ pub fn gen_case4(prop: &str, seed: u64, thorough: bool, rng: &mut Rng) -> Case {
             let mut ops = vec![];
             for _ in 0..n {
                 let second = cfg.second_index_reader && rng.chance(1, 2);
-                let op = match rng.weighted(&[18, 14, 8, 6, 14, 10, 8, 6, 10, 6]) {
+                let op = match rng.weighted(&[18, 14, 8, 6, 14, 10, 8, 6, 10, 6, 6]) {
                     0 => Op::CreateWriter { kind: 0, second_index: second },
                     1 => Op::DropWriter,
                     2 => Op::Rollback,
@@ -74,7 +74,8 @@ pub fn gen_case4(prop: &str, seed: u64, thorough: bool, rng: &mut Rng) -> Case {
                     6 => Op::RaceCreate { n: rng.range(2, 3) as usize },
                     7 => Op::KillWorker,
                     8 => Op::Add(g.doc(cfg.nkeys)),
-                    _ => Op::Commit,
+                    9 => Op::Commit,
+                    _ => Op::FaultyRollback,
                 };
                 ops.push(op);
             }
@@ -665,6 +666,79 @@ fn lock_op(e: &mut Exec, op: &Op) {
                 }
             }
         }
+        Op::FaultyRollback => {
+            if e.writer.is_none() {
+                return;
+            }
+            let at = e.dir.op_count();
+            e.dir.with(|s| {
+                s.plan.fails = vec![FailSpec { at, mode: FailMode::FromOn }];
+                s.armed = true;
+            });
+            let res = {
+                let w = e.writer.as_mut().unwrap();
+                catch(|| w.rollback())
+            };
+            e.dir.with(|s| {
+                s.plan.fails.clear();
+                s.armed = false;
+            });
+            e.pending_merges.clear();
+            e.model.rollback();
+            e.last_stamp = None;
+            e.txn_ops = 0;
+            match res {
+                Err(p) => {
+                    e.out.violate("C18", "panic_on_calling_thread", format!("rollback under I/O errors: {p}"));
+                    return;
+                }
+                Ok(Ok(_)) => e.out.probe("faulty_rollback_succeeded"),
+                Ok(Err(_)) => {
+                    e.out.probe("faulty_rollback_failed");
+                    // the writer object is still alive: it must still own the lock
+                    let idx = pick_index(e, false);
+                    match catch(|| idx.writer_with_options::<tantivy::TantivyDocument>(writer_opts(0, &cfg))) {
+                        Err(p) => e.out.violate("C18", "panic_on_calling_thread", format!("writer attempt: {p}")),
+                        Ok(Ok(_)) => {
+                            e.out.violate(
+                                "C18",
+                                "second_writer_created",
+                                "a second IndexWriter was created while the writer whose rollback() failed is still alive".into(),
+                            );
+                            e.stop = true;
+                            return;
+                        }
+                        Ok(Err(err)) => {
+                            if is_lock_failure(&err) {
+                                e.out.probe("lock_attempt_refused");
+                            } else {
+                                e.out.violate("C18", "wrong_error_while_locked", format!("expected a lock error, got: {err}"));
+                            }
+                        }
+                    }
+                    // the storage works again: rolling back once more must work (or at least not panic);
+                    // if it fails the client drops the writer and opens a new one
+                    let res2 = {
+                        let w = e.writer.as_mut().unwrap();
+                        catch(|| w.rollback())
+                    };
+                    match res2 {
+                        Err(p) => {
+                            e.out.violate("C18", "panic_on_calling_thread", format!("second rollback after a failed one: {p}"));
+                            return;
+                        }
+                        Ok(Ok(_)) => e.out.probe("rollback_retried_ok"),
+                        Ok(Err(_)) => {
+                            lock_op(e, &Op::DropWriter);
+                            lock_op(e, &Op::CreateWriter { kind: 0, second_index: false });
+                            if e.writer.is_none() && e.out.violations.is_empty() {
+                                e.out.violate("C18", "writer_refused_while_unlocked", "no writer after dropping the writer whose rollback failed".into());
+                            }
+                        }
+                    }
+                }
+            }
+        }
         Op::KillWorker => {
             if e.writer.is_none() {
                 return;
@@ -1126,7 +1200,7 @@ fn linearize(base: &[DocSpec], recs: &[ProdRec], observed: &dump::Dump, f: &Fiel
 pub fn exec_special4(e: &mut Exec, op: &Op) {
     match op {
         Op::Reload(_) | Op::Hold(_) | Op::Recheck => main_reader_op(e, op),
-        Op::CreateWriter { .. } | Op::NewWriterAttempt { .. } | Op::DropWriter | Op::RaceCreate { .. } | Op::KillWorker => lock_op(e, op),
+        Op::CreateWriter { .. } | Op::NewWriterAttempt { .. } | Op::DropWriter | Op::RaceCreate { .. } | Op::KillWorker | Op::FaultyRollback => lock_op(e, op),
         Op::Fork(ps) => fork_op(e, ps),
         _ => {}
     }
